@@ -22,6 +22,7 @@ type VM struct {
 	stdout  io.Writer
 
 	backtrace []pos
+	depth     int // script calls already nested around this VM value (Func called by a native function inside a script call)
 	frame     frame
 	imported  map[string]bool // packages whose top-level code has run in this VM, by import path
 	verifState
@@ -84,7 +85,16 @@ func New(options ...VMOption) *VM {
 	return vm
 }
 
+// maxErrText bounds the text of an inner error that an outer error quotes: errors that cross many nested Func calls
+// (a script that recurses through a native callback) would otherwise grow quadratically.
+const maxErrText = 1 << 14
+
 func (v *VM) btErr(r any) error {
+	if err, ok := r.(error); ok {
+		if msg := err.Error(); len(msg) > maxErrText {
+			r = msg[:maxErrText/2] + "\n\t...\n" + msg[len(msg)-maxErrText/2:]
+		}
+	}
 	bt := v.backtrace
 	var lines []string
 	n := v.frame.N
@@ -128,6 +138,7 @@ func (v *VM) Func(fnc Value, xRets int, params ...Value) (rets []Value, err erro
 		globals:  v.globals,
 		stdout:   v.stdout,
 		imported: v.imported,
+		depth:    v.depth + len(v.backtrace),
 		stack:    append(append(make([]Value, 0, len(params)+1), params...), fnc), // never the caller's array: params with spare capacity would be overwritten, and so would results handed out earlier
 		frame: frame{Codes: []instruction{{
 			Code: codeCall,
@@ -283,7 +294,7 @@ func mkFunc(args, rets, slots int, tokens []instruction) func(v *VM) {
 	empty := make([]Value, slots-args)
 	codes := tokens[args+rets:]
 	return func(v *VM) {
-		if len(v.backtrace) >= maxCallDepth {
+		if v.depth+len(v.backtrace) >= maxCallDepth {
 			panic("call depth limit exceeded")
 		}
 		v.backtrace = append(v.backtrace, v.frame.Codes[v.frame.N].Pos)
